@@ -81,6 +81,15 @@ Theorem C11_response_intact_partial : forall i, wf i = true -> spec i (model i) 
 Proof. exact spec_model_partial. Qed.
 Print Assumptions C11_response_intact_partial.
 
+(* Sequences on one process: what is owed for a request, and what the model
+   answers, does not depend on an earlier response whose write failed. (The
+   correspondence run interleaves such failed writes and requires the real
+   library to agree.) *)
+Theorem C11_history_independent : forall prev n i,
+  model (IAfter prev n i) = model i /\ (forall o, spec (IAfter prev n i) o = spec i o).
+Proof. exact history_independent. Qed.
+Print Assumptions C11_history_independent.
+
 (* F23 (recorded, open): form_post with a custom-scheme redirect URI posts to
    "#ZgotmplZ", not to the redirect URI. *)
 Theorem C11_form_post_custom_scheme_refuted : exists i, spec i (model i) = false.
